@@ -112,6 +112,26 @@ Fixpoint lookup {A} (k : str) (l : list (str * A)) : option A :=
   | (k', v) :: r => if str_eqb k' k then Some v else lookup k r
   end.
 
+(* specification.NewSecurityRequirements / NewSecurityRequirement reject (with an
+   error) a requirement object that lists several schemes, an undeclared
+   scheme, or a scheme kind without a generated authenticator.  The global list
+   is parsed even when every operation overrides it. *)
+Definition kind_supported (k : scheme_kind) : bool :=
+  match k with KUnsupported => false | _ => true end.
+
+Definition alt_supported (schemes : list (str * scheme_kind)) (alt : requirement) : bool :=
+  match alt with
+  | [n] => match lookup n schemes with Some k => kind_supported k | None => false end
+  | _ => false
+  end.
+
+Definition reqs_supported (schemes : list (str * scheme_kind)) (o : option (list requirement)) : bool :=
+  match o with Some l => forallb (alt_supported schemes) l | None => true end.
+
+Definition gen_accepts (s : rspec) : bool :=
+  reqs_supported (s_schemes s) (s_global s) &&
+  forallb (fun p => forallb (fun o => reqs_supported (s_schemes s) (r_security o)) (p_ops p)) (s_paths s).
+
 (* specification.NewSecurityRequirements: each requirement object keeps ONE of
    its schemes (the first ranged key; for a one-scheme requirement that is the
    scheme).  The model keeps the first listed. *)
